@@ -14,38 +14,38 @@ CHECKS = {
  "C10": ("exploration", "differential runtime monitoring against a PoseidonBN128 reference ported from the Rust crate (own constants) + injectivity pairs + alias attack on compiled ToVec",
          "BN254 permutation, sponge, short-input shortcut, two-to-one and ToVec are compared with the reference on edge and random inputs (lengths 0..30); packing / chunking injectivity is checked on generated pairs; on compiled R1CS/SCS the full-width bit decomposition in ToVec is attacked with the bits of h+r and must be rejected.",
          "Injectivity is sampled, not proved.", "§3/C10"),
- "C11": ("exploration", "sequential history replay: observe/squeeze histories executed on the real challenger chip and checked value-by-value against an executable duplex-sponge model; transcript comparison and influence monitoring on real and random proofs",
+ "C11": ("exploration", "sequential history replay: observe/squeeze histories executed on the real challenger chip and checked value-by-value against an executable duplex-sponge model; transcript comparison and influence monitoring on real and random proofs; the same gadget compiled with gnark's real R1CS / SCS builders and solved with the real solver (reference outputs must be accepted, changed ones refused)",
          "Random and forced (rate boundary, observe-after-squeeze, empty buffer) histories of length 0..200 are executed on the real chip and every squeezed value compared with the native challenger; GetChallenges on real / random transcripts is compared with the reference transcript; changing an observed value must leave earlier challenges unchanged and change every later one.",
          "Exact replay against a deterministic sequential model (stronger than a linearizability search; the object is used sequentially).", "§3/C11"),
- "C12": ("exploration", "runtime monitoring of the Merkle gadget (verif hook) on synthetic trees with an iff oracle computed by the reference hash",
+ "C12": ("exploration", "runtime monitoring of the Merkle gadget (verif hook) on synthetic trees with an iff oracle computed by the reference hash; the same gadget compiled with gnark's real R1CS / SCS builders and solved with the real solver (reference outputs must be accepted, changed ones refused)",
          "Trees of height 4..12 over leaves of width 1..140 are built with the reference; every leaf index of small trees and seeded indices of large ones are opened, with none / each single corruption (leaf, sibling, index bit, cap bit, selected / unselected cap entry, swapped order, wrong slot); the gadget must accept exactly when the reference fold equals the selected cap entry.",
          "Cap height fixed to 4 as the gadget requires.", "§3/C12"),
- "C13": ("exploration", "differential runtime monitoring of FRI sub-gadgets (verif hooks) and of verifyQueryRound on synthetic FRI instances produced by a reference mini-prover, with single-corruption verdict comparison",
+ "C13": ("exploration", "differential runtime monitoring of FRI sub-gadgets (verif hooks) and of verifyQueryRound on synthetic FRI instances produced by a reference mini-prover, with single-corruption verdict comparison; the same gadget compiled with gnark's real R1CS / SCS builders and solved with the real solver (reference outputs must be accepted, changed ones refused)",
          "Domain points, initial combination, coset folding at every within-coset position and final evaluation are compared with the reference; whole query rounds on synthetic instances (degree bits 5..13, rate 1..3, 1..3 steps) must be accepted for every within-coset bit pattern and each single corruption must give the reference round verifier's verdict.",
          "Degenerate challenges (beta on a coset point, domain point equal to an opening point) are not generated.", "§3/C13"),
  "C14": ("exploration", "runtime accept-set monitoring of the proof-of-work gadget under every range-check configuration + witness substitution through the whole circuit with the reference as monitor",
          "assertLeadingZeros is executed for difficulties 1..63 on boundary and random responses under native / plain / env-forced bit decomposition / commit (unaligned widths must be refused); substituted witnesses on real proofs must yield the reference's response and be rejected unless the reference accepts.",
          "Responses explored are boundary+random.", "§3/C14"),
- "C15": ("exploration", "differential runtime monitoring of gate evaluators instantiated from generated identifiers against reference gate polynomials on random and reference-generated honest rows; selector filtering on random layouts",
+ "C15": ("exploration", "differential runtime monitoring of gate evaluators instantiated from generated identifiers against reference gate polynomials on random and reference-generated honest rows; selector filtering on random layouts; the same gadget compiled with gnark's real R1CS / SCS builders and solved with the real solver (reference outputs must be accepted, changed ones refused)",
          "For every supported gate type over the parameter grid, EvalUnfiltered on random rows must equal the reference vector (length and order) and vanish on honest rows; EvaluateGateConstraints on random gate sets / selector groups / selector values must equal the position-wise sum of filter*constraints.",
          "Reference gates validated by accepting the real proofs and by vanishing on honest rows.", "§3/C15"),
- "C16": ("exploration", "runtime monitoring of PlonkChip.Verify on real and synthetic shapes with reference-solved quotient openings (must accept, vanishing values compared) and single perturbations (must reject)",
+ "C16": ("exploration", "runtime monitoring of PlonkChip.Verify on real and synthetic shapes with reference-solved quotient openings (must accept, vanishing values compared) and single perturbations (must reject); the same gadget compiled with gnark's real R1CS / SCS builders and solved with the real solver (reference outputs must be accepted, changed ones refused)",
          "Random openings/challenges with the quotient solved by the reference are executed on the real shape and on synthetic shapes (1..3 challenge rounds, 2..80 routed wires, degree factor 1..8 incl. non-dividing factors); every single perturbation of an opening or challenge that breaks the identity per the reference must be rejected.",
          "zeta=1 / Z_H(zeta)=0 not generated.", "§3/C16"),
  "C18": ("exploration", "repeated resolution of generated identifier strings (map-iteration schedules) with a reference parser as oracle, plus a race-detector build running 16 goroutines",
          "Each supported / unsupported / malformed identifier is resolved >=200 (thorough >=2000) times and from 16 goroutines under the Go race detector; supported ones must always yield the stated type and numbers, unsupported ones must always panic; hiding=true documents must be refused.",
          "Type and numbers are read back from Gate.Id(); behaviour of resolved gates is C15.", "§3/C18"),
- "C19": ("exploration", "differential runtime monitoring: generated documents read by the repository's readers and compared position by position with the generator's expectation, witness vector comparison, malformed-value refusal",
+ "C19": ("exploration", "differential runtime monitoring: generated documents read by the repository's readers and compared position by position with the generator's expectation, witness vector comparison, malformed-value refusal; request-body readers in sequences; readers used from 12 goroutines under the Go race detector",
          "Random-shape proof / verifier-data / common-data documents are written, read with the repository's readers and compared leaf by leaf (count, order, value; hashes as residues) and through frontend.NewWitness; listed malformations must be refused at read or witness time.",
          "Documents are generated by the harness; unlisted malformations (signed decimal strings, null) are reported only.", "§3/C19"),
 
- "C01": ("exploration", "runtime monitoring: single-leaf tampering of accepted instances executed on the real circuit code in a monitoring evaluation engine (whole circuit + isolated query rounds, cross-checked), reference verifier as monitor",
+ "C01": ("exploration", "runtime monitoring: single-leaf tampering of accepted instances executed on the real circuit code in a monitoring evaluation engine (whole circuit + isolated query rounds, cross-checked), reference verifier as monitor; whole 28-round verifier compiled with gnark's real builders, honest and tampered witnesses solved with the real solver",
          "Every kind of leaf of proof / public inputs / digest is perturbed (+1, -1, random, swap, zero) on real accepted proofs and the repository's Define code is executed; the verdict must be REJECT/REFUSE. Query-round leaves are decided by running the repository's verifyQueryRound for that round alone with the recorded transcript; the decomposition is monitored at every round index by whole-circuit runs. Circuit-description changes are judged when the independent reference rejects. Thorough enumerates every leaf position of all five proofs.",
          "Engine stands in for compiled constraint systems on whole-verifier runs (agreement with gnark's engine sampled in C02); soundness against proofs of maliciously built circuits is out of reach (no plonky2 prover offline).", "§3/C01"),
- "C02": ("exploration", "runtime monitoring of honest executions under every range-check configuration (engine faces + env-var child process + gnark test engine agreement) and shadow honest-bound monitor",
+ "C02": ("exploration", "runtime monitoring of honest executions under every range-check configuration (engine faces + env-var child process + gnark test engine agreement) and shadow honest-bound monitor; whole verifier and fixed wrapper compiled with gnark's R1CS and SCS builders and solved; commitment-based mechanism over every circuit size",
          "All real proofs and their k-round prefix restrictions are executed through VerifierCircuit and CircuitFixed under the native, commit, bit-decomposition and env-forced configurations with the repository's own hint functions; all must be accepted; gnark's own test engine must agree; the shadow monitor requires every quotient's data-independent honest bound to fit its enforced width.",
          "Honest proofs are limited to the five shipped proofs of two inner circuits and their restrictions.", "§3/C02"),
- "C03": ("exploration", "runtime monitoring of CircuitFixed on forged limb assignments (limb + k*p, borrow shifts, random) + shadow wrap-freedom of the packing equality",
+ "C03": ("exploration", "runtime monitoring of CircuitFixed on forged limb assignments (limb + k*p, borrow shifts, random) + shadow wrap-freedom of the packing equality; the wrapper compiled with a real builder and solved on honest and forged assignments",
          "CircuitFixed.Define is executed on the real circuit-A proofs with forged limb assignments and recomputed / truncated / perturbed public values; ACCEPT only for the true limbs and their packing; the shadow monitor checks the packing equality is wrap-free under the enforced limb bounds.",
          "Solidity side (128-bit truncation) not executable offline; recorded as the reason V < 2^128 matters.", "§3/C03"),
  "C04": ("exploration", "runtime monitoring of wrappers instantiated from a template with a differing proving-time verifier key (every key element perturbed, unselected cap entries computed from the recorded query indices)",
@@ -61,7 +61,7 @@ CHECKS = {
          "Every list kind of the proof structure is mutated (drop first/last, duplicate last, append zero, empty) and shape-prescribing configuration fields are edited against the unchanged proof; Define must panic/refuse or reject, never accept.",
          "Configuration edits are limited to fields that prescribe shape / number of checks (see DESIGN.md §6 for the false-alarm correction).", "§3/C20"),
  # id: (level, technique, text, note, design_ref)
- "C06": ("exploration", "runtime accept-set monitoring of single-gadget circuits on compiled R1CS/SCS systems (real solver, hint overrides) and on the monitoring engine, per range-check mechanism",
+ "C06": ("exploration", "runtime accept-set monitoring of single-gadget circuits on compiled R1CS/SCS systems (real solver, hint overrides) and on the monitoring engine, per range-check mechanism; mid-size circuits under the commitment-based mechanism; race-detector build for the shared chip cache",
          "Accept-sets of RangeCheck / RangeCheckWithMaxBits(n) are observed, existentially over honest and adversarial hint outputs, on gnark's real R1CS and SCS solvers and on the evaluation engine, for the native / commit / bit-decomposition mechanisms, and compared with the exact ranges on boundary and random values; held on the executions listed in the evidence.",
          "Native range-checking builder is emulated (wrapper around real builders + engine face); commitment hints replaced by a hash; values explored are boundary+random, not all field elements.", "§3/C06"),
  "C07": ("exploration", "differential runtime monitoring of gadget outputs against a native reference (engine faces + compiled R1CS/SCS solver sample)",
